@@ -122,6 +122,8 @@ var c6Names = []string{
 	"c6inner.Deep.Foo", "c6inner", "c6inner.Deep", "Deep.Foo", "Deep", "Deep.foo",
 	"Ping\x00", "Píng", "Leaf․Foo", "Leaf/Foo", "Leaf..Foo",
 	"String", "Close", "Leaf.String",
+	// names a refactor of the closure manager could export next to CallClosure (the resolver falls back to MethodByName on it)
+	"RegisterClosure", "registerClosure", "FreeClosure", "CreateClosure", "Closures", "Register", "Free",
 }
 
 var c6Args = []string{
@@ -376,7 +378,13 @@ func subC06(args []string) {
 				}
 				select {
 				case <-got:
-					say("OK ignored (link alive)")
+					if systematic {
+						// a WELL-FORMED request must be answered or end its link; silence means it was resolved to something that
+						// is not an exposed method (nor the closure entry point) and whose results nobody knows how to send back
+						say("BAD a well-formed request was neither answered nor ended its link (the link is alive and answers later requests) after frame %d", i)
+					} else {
+						say("OK ignored (link alive)")
+					}
 				case <-v.linkErr:
 					say("OK link-ended late")
 					v = newVictim()
@@ -485,11 +493,9 @@ func subC06(args []string) {
 	say("DONE links=%d answered=%d ended=%d", links, answered, ended)
 }
 
-// runC07: every name of the zoo × argument counts 0,1,2, systematically; application code may run
-// only for the exposed methods with the matching argument count (oracle inside the child).
-func runC07(rep *Report, tier string, seed int64) {
-	rep.Rule = "every function-name string of the name zoo (valid names, case variants, unexported methods and fields, unexported embedded field names, promoted fields, func/map/int/interface-typed fields, nil interface / nil pointer / nil embedded pointer, " +
-		"partial, over-long, empty and dotted paths, closure-manager names) × 0/1/2 arguments is sent to a real registry (child process), both link APIs; oracle: application code runs only for an exported method reached through exported field names with the matching argument count, exactly that method. distinct = (name, argument count, api)"
+// lkLookupDifferential: the Lean lookup model against the real findMethodByFunctionCallPathRecursively, on
+// several roots × every name of the zoo (the tie of the model behind the C06 / C07 theorems).
+func lkLookupDifferential(rep *Report, prop string) {
 	// ---- model vs real reflect: findMethodByFunctionCallPathRecursively on several roots
 	roots := map[string]any{"c6Local": newC6Local(), "Svc": NewSvc("X"), "nil": nil, "int": 7, "valueStruct": c6Value{}, "nilPtr": (*c6Local)(nil)}
 	extra := []string{"Echo", "Sub.Ping", "Sub2.Ping", "Deep.Leaf.Ping", "Deep.Ping", "Sub.svc.Echo", "hidden.Ping", "Sub.ID", "Deep", "secret", "peer", "ValM", "PtrM", "WithClosure", "NoRet"}
@@ -516,11 +522,11 @@ func runC07(rep *Report, tier string, seed int64) {
 		}
 		ans, err := runDriver(lines)
 		if err != nil || len(ans) != len(lines) {
-			rep.addViolation("correspondence", "C07:driver", fmt.Sprintf("Lean driver failed: %v", err), nil)
+			rep.addViolation("correspondence", prop+":driver", fmt.Sprintf("Lean driver failed: %v", err), nil)
 			continue
 		}
 		if !strings.HasPrefix(ans[0], "ok") || !strings.HasPrefix(ans[1], "ok") {
-			rep.addViolation("correspondence", "C07:shape:"+rn, "driver rejects the shape: "+ans[0]+" / "+ans[1], map[string]any{"table": tl, "root": rl})
+			rep.addViolation("correspondence", prop+":shape:"+rn, "driver rejects the shape: "+ans[0]+" / "+ans[1], map[string]any{"table": tl, "root": rl})
 			continue
 		}
 		for i, nm := range names {
@@ -532,12 +538,20 @@ func runC07(rep *Report, tier string, seed int64) {
 			rep.TracesValidated++
 			rep.Evaluations++
 			if got != want[i] {
-				rep.addViolation("correspondence", "C07:lookup-model:"+rn+":"+nm, fmt.Sprintf("root %s path %q: model %q, real reflect %q", rn, nm, ans[i+2], want[i]), map[string]any{"root": rn, "path": nm})
+				rep.addViolation("correspondence", prop+":lookup-model:"+rn+":"+nm, fmt.Sprintf("root %s path %q: model %q, real reflect %q", rn, nm, ans[i+2], want[i]), map[string]any{"root": rn, "path": nm})
 			} else {
 				rep.ModelSteps++
 			}
 		}
 	}
+}
+
+// runC07: every name of the zoo × argument counts 0,1,2, systematically; application code may run
+// only for the exposed methods with the matching argument count (oracle inside the child).
+func runC07(rep *Report, tier string, seed int64) {
+	rep.Rule = "every function-name string of the name zoo (valid names, case variants, unexported methods and fields, unexported embedded field names, promoted fields, func/map/int/interface-typed fields, nil interface / nil pointer / nil embedded pointer, " +
+		"partial, over-long, empty and dotted paths, closure-manager names) × 0/1/2 arguments is sent to a real registry (child process), both link APIs; oracle: application code runs only for an exported method reached through exported field names with the matching argument count, exactly that method. distinct = (name, argument count, api)"
+	lkLookupDifferential(rep, "C07")
 	// ---- the exposed graph is re-pointed between calls: the object held NOW is the one that runs
 	for _, api := range apis() {
 		c07Mutation(rep, api)
@@ -610,6 +624,17 @@ func runC06(rep *Report, tier string, seed int64) {
 	if tier == "thorough" {
 		batches, per = 60, 400
 	}
+	lkLookupDifferential(rep, "C06")
+	tl, rl := lkShape(newC6Local(), 3)
+	resolveLines := []string{tl, rl}
+	for i := 0; i < len(c6Names)*3; i++ {
+		resolveLines = append(resolveLines, fmt.Sprintf("lk resolve %d %s", i%3, lkName(c6Names[i/3])))
+	}
+	resolveAns, resolveErr := runDriver(resolveLines)
+	if resolveErr != nil || len(resolveAns) != len(resolveLines) {
+		rep.addViolation("correspondence", "C06:driver", fmt.Sprintf("Lean driver failed: %v", resolveErr), nil)
+		resolveAns = nil
+	}
 	// b = -1, -2: the systematic sweep (every name of the zoo × 0/1/2 arguments, well-formed frames), one per link API
 	for b := -2; b < batches; b++ {
 		api := apis()[(b+2)%2]
@@ -630,6 +655,49 @@ func runC06(rep *Report, tier string, seed int64) {
 				fr, _ := hex.DecodeString(strings.Fields(last + " x x")[2])
 				rep.addViolation("property", "C06:"+api+":"+strings.SplitN(l[4:], " after frame", 2)[0], fmt.Sprintf("%s (last frame: %q)", l[4:], fr),
 					map[string]any{"suite": "C06", "api": api, "frame": string(fr), "cmd": fmt.Sprintf("bin/harness -sub c06 %d %d %s", seed*1000+int64(b), per, api)})
+			}
+		}
+		if b < 0 && resolveAns != nil {
+			// the model's resolution of every systematic request against what happened to it in the child: `rejected why`
+			// ⇔ that link ended, with an error whose text contains `why`'s first clause; `runs` / `closure` / `nilrecv` ⇔
+			// the request was answered (the model never predicts `crash` on the current tree: C06_resolve_total)
+			k := -1
+			for _, l := range lines {
+				if strings.HasPrefix(l, "FRAME ") {
+					k++
+					continue
+				}
+				if k < 0 || k+2 >= len(resolveAns) || !(strings.HasPrefix(l, "OK answered") || strings.HasPrefix(l, "OK link-ended") || strings.HasPrefix(l, "OK ignored")) {
+					continue
+				}
+				m := resolveAns[k+2]
+				rep.TracesValidated++
+				okc := false
+				switch {
+				case strings.HasPrefix(m, "rejected "):
+					// the model names the PRIMARY reason; the implementation's text after the fallback to the closure manager:
+					why := strings.SplitN(strings.TrimPrefix(m, "rejected "), ":", 2)[0]
+					text := map[string]string{"cannot call non function": "can not call non function", "recovered": "can not call non function",
+						"invalid function call path": "can not call non function", "invalid argument count": "invalid argument count",
+						"reflect": "panicked with no error value"}[why]
+					okc = strings.HasPrefix(l, "OK link-ended")
+					// (an error text that is none of the resolver's own stems from an earlier request of this link — e.g. the
+					// handler of the previous frame invoking a malformed closure id — and is not compared)
+					own := false
+					for _, t := range []string{"can not call non function", "invalid argument count", "panicked with no error value", "invalid function call path"} {
+						own = own || strings.Contains(l, t)
+					}
+					if okc && own {
+						okc = text != "" && strings.Contains(l, text)
+					}
+				case strings.HasPrefix(m, "runs "), m == "closure", strings.HasPrefix(m, "nilrecv "):
+					okc = strings.HasPrefix(l, "OK answered") || strings.HasPrefix(l, "OK link-ended") && strings.HasPrefix(m, "nilrecv ")
+				}
+				if okc {
+					rep.ModelSteps++
+				} else {
+					rep.addViolation("correspondence", fmt.Sprintf("C06:resolve-model:%s/%d", c6Names[k/3], k%3), fmt.Sprintf("request for %q with %d args (%s): model %q, implementation %q", c6Names[k/3], k%3, api, m, l), nil)
+				}
 			}
 		}
 		rep.Evaluations += nFrames
